@@ -667,6 +667,24 @@ func (m *Machine) describe(itf Iface) string {
 
 // goStmt: goroutines are not scheduled in sequential mode; they are recorded.
 func (m *Machine) goStmt(fr *frame, fn Value, args []Value) {
+	if m.cfg("go.inline") {
+		// run the goroutine's function here, to completion or until it blocks
+		// (a goroutine that blocks is simply parked); a panic in it crashes the
+		// process and therefore propagates
+		func() {
+			defer func() {
+				if r := recover(); r != nil {
+					if pa, ok := r.(pathAbort); ok && pa.kind == abBlocked {
+						m.events = append(m.events, "goroutine parked: "+pa.msg)
+						return
+					}
+					panic(r)
+				}
+			}()
+			m.call(fn, fr, args)
+		}()
+		return
+	}
 	m.events = append(m.events, "go statement not executed at "+fr.site())
 	gl, _ := m.env["goroutines"].([]Value)
 	m.env["goroutines"] = append(gl, fn)
